@@ -27,17 +27,17 @@ from . import _run
 META = dict(
     functions=["fdtd.initialization.place_objects/_resolve_grid_from_volume", "core.grid.UniformGrid/QuasiUniformGrid/RectilinearGrid", "core.physics.curl._metric_scale",
                "fdtd.forward.forward", "Detector.update (field, energy, Poynting, phasor)"],
-    assumptions=["reals for floats; comparison up to 1e-9 relative with inputs boxed to [-1,1] (placement constants are folded differently per grid description)",
+    assumptions=["QuasiUniformGrid requires even cell counts: all shapes are even", "reals for floats; comparison up to 1e-9 relative with inputs boxed to [-1,1] (placement constants are folded differently per grid description)",
                  "quantified: initial E, H"],
     outside="T and shapes beyond the bound",
     bounds=dict(quick=dict(T=3), thorough=dict(T=5)),
 )
 
 _SC = {
-    "pml-z": dict(shape=(3, 3, 6), bounds={"min_z": "pml", "max_z": "pml"}, src=("dipole", "plane")),
-    "pec-pmc-periodic": dict(shape=(3, 3, 4), bounds={"min_x": "pec", "max_x": "pec", "min_y": "pmc", "max_y": "pmc", "min_z": "periodic", "max_z": "periodic"}, src=("dipole", "mdipole")),
-    "bloch": dict(shape=(3, 2, 3), bounds="bloch", src=("dipole",), bloch=(1.5e6, 0.0, -0.8e6)),
-    "pml-all": dict(shape=(4, 4, 5), bounds="pml", src=("dipole",), thickness=1),
+    "pml-z": dict(shape=(2, 4, 6), bounds={"min_z": "pml", "max_z": "pml"}, src=("dipole", "plane")),
+    "pec-pmc-periodic": dict(shape=(4, 2, 4), bounds={"min_x": "pec", "max_x": "pec", "min_y": "pmc", "max_y": "pmc", "min_z": "periodic", "max_z": "periodic"}, src=("dipole", "mdipole")),
+    "bloch": dict(shape=(2, 2, 4), bounds="bloch", src=("dipole",), bloch=(1.5e6, 0.0, -0.8e6)),
+    "pml-all": dict(shape=(4, 4, 4), bounds="pml", src=("dipole",), thickness=1),
 }
 
 
@@ -66,10 +66,14 @@ def _place(spec, T, kind):
     objs, cons = [volume] + list(bdict.values()), list(bcons)
     for o, cs in _run.sources(shape, T, spec["src"]) + _run.detectors(shape, T):
         objs.append(o)
-        # index placement is rejected on explicitly non-uniform grids only; these grids are uniform -> real coordinates work for all three
+        # the uniform policies resolve to edges centred on 0, the explicit grid here starts at 0: use index placement
+        # where it is allowed and the equivalent edge coordinate on the explicit grid
         for cc in cs:
-            from fdtdx.objects.object import RealCoordinateConstraint
-            cons.append(RealCoordinateConstraint(object=o.name, axes=cc.axes, sides=("-",) * len(cc.axes), coordinates=tuple(i * SPACING for i in cc.idx)))
+            if kind == "rect":
+                from fdtdx.objects.object import RealCoordinateConstraint
+                cons.append(RealCoordinateConstraint(object=o.name, axes=cc.axes, sides=("-",) * len(cc.axes), coordinates=tuple(i * SPACING for i in cc.idx)))
+            else:
+                cons.append(cc.resolve(None))
     key = jax.random.PRNGKey(0)
     oc, arr, params, cfg, info = fdtdx.place_objects(object_list=objs, config=cfg, constraints=cons, key=key)
     arr, oc, _ = fdtdx.apply_params(arr, oc, params, key)
